@@ -4,7 +4,10 @@
 // shapes the library accepts. Nothing in here calls the ring-assembly code of paulmach/osm.
 package polyg
 
-import "math"
+import (
+	"math"
+	"math/big"
+)
 
 // Pt is a vertex on the 1e-7 degree grid (X = longitude, Y = latitude, both in grid units).
 // All generator-side geometry is done on these integers and is therefore exact.
@@ -16,13 +19,43 @@ func (p Pt) Lon() float64 { return float64(p.X) / 1e7 }
 // Lat is the latitude handed to the library.
 func (p Pt) Lat() float64 { return float64(p.Y) / 1e7 }
 
-// Cross is the z component of (a-o) x (b-o): >0 when o,a,b turn counter-clockwise.
+// Cross is the z component of (a-o) x (b-o): >0 when o,a,b turn counter-clockwise. Exact: when
+// the differences are too large for int64 products (rings spanning the whole coordinate range)
+// it is computed with big integers and saturated, which keeps sign and zero-ness.
 func Cross(o, a, b Pt) int64 {
-	return (a.X-o.X)*(b.Y-o.Y) - (a.Y-o.Y)*(b.X-o.X)
+	dx1, dy1, dx2, dy2 := a.X-o.X, a.Y-o.Y, b.X-o.X, b.Y-o.Y
+	if small(dx1) && small(dy1) && small(dx2) && small(dy2) {
+		return dx1*dy2 - dy1*dx2
+	}
+	return saturate(crossBig(o, a, b))
+}
+
+func small(v int64) bool { return v > -(1<<30) && v < 1<<30 }
+
+func crossBig(o, a, b Pt) *big.Int {
+	x := new(big.Int).Mul(big.NewInt(a.X-o.X), big.NewInt(b.Y-o.Y))
+	y := new(big.Int).Mul(big.NewInt(a.Y-o.Y), big.NewInt(b.X-o.X))
+	return x.Sub(x, y)
+}
+
+func saturate(v *big.Int) int64 {
+	if v.IsInt64() {
+		return v.Int64()
+	}
+	if v.Sign() > 0 {
+		return math.MaxInt64
+	}
+	return math.MinInt64
 }
 
 func dot(o, a, b Pt) int64 {
-	return (a.X-o.X)*(b.X-o.X) + (a.Y-o.Y)*(b.Y-o.Y)
+	dx1, dy1, dx2, dy2 := a.X-o.X, a.Y-o.Y, b.X-o.X, b.Y-o.Y
+	if small(dx1) && small(dy1) && small(dx2) && small(dy2) {
+		return dx1*dx2 + dy1*dy2
+	}
+	x := new(big.Int).Mul(big.NewInt(dx1), big.NewInt(dx2))
+	y := new(big.Int).Mul(big.NewInt(dy1), big.NewInt(dy2))
+	return saturate(x.Add(x, y))
 }
 
 func sgn(v int64) int {
@@ -38,6 +71,22 @@ func sgn(v int64) int {
 // Area2 is twice the signed area of the ring given without closing vertex (>0: CCW).
 // Differences to the first vertex are used so that the products stay far below 2^63.
 func Area2(r []Pt) int64 {
+	big2 := false
+	for _, p := range r {
+		if d := p.X - r[0].X; d <= -(1<<27) || d >= 1<<27 {
+			big2 = true
+		}
+		if d := p.Y - r[0].Y; d <= -(1<<27) || d >= 1<<27 {
+			big2 = true
+		}
+	}
+	if big2 {
+		sum := new(big.Int)
+		for i := 1; i+1 < len(r); i++ {
+			sum.Add(sum, crossBig(r[0], r[i], r[i+1]))
+		}
+		return saturate(sum)
+	}
 	var a int64
 	for i := 1; i+1 < len(r); i++ {
 		a += Cross(r[0], r[i], r[i+1])
